@@ -8,7 +8,9 @@ set -u
 out=${1:-/tmp/hcov}
 B=$(dirname "$(find ~/.rustup/toolchains/nightly-*/lib/rustlib -name llvm-profdata | head -1)")
 rm -rf "$out" && mkdir -p "$out/prof" && rsync -a --exclude target /verif/harness/ "$out/"
-cd "$out" && RUSTFLAGS="-C instrument-coverage" CARGO_NET_OFFLINE=true CARGO_TARGET_DIR="$out-target" cargo +nightly build --offline 2>&1 | tail -1
+# (build scripts and proc macros are instrumented too and run with the package directory as cwd: give their profiles a
+# place of their own, or they land in /repo as default_*.profraw)
+cd "$out" && LLVM_PROFILE_FILE="$out/prof-build/%p-%m.profraw" RUSTFLAGS="-C instrument-coverage" CARGO_NET_OFFLINE=true CARGO_TARGET_DIR="$out-target" cargo +nightly build --offline 2>&1 | tail -1
 for p in C01 C02 C03 C04 C05 C06 C07 C08 C09 C10 C11 C12 C13 C14 C15 C16 C17 C18 C19 C20; do
   mkdir -p "$out/out-$p"
   LLVM_PROFILE_FILE="$out/prof/$p-%p.profraw" VERIF_ROOT=/verif timeout 900 "$out-target/debug/kvarn-verif" $p --mode quick --seed 1 --out "$out/out-$p" >/dev/null 2>&1
